@@ -162,6 +162,14 @@ impl<'a> SendLastStateProofProcess<'a> {
         return_if_failed!(check_continuous_headers(
             &headers[(reorg_count + sampled_count)..]
         ));
+        // The last header is the child of the last n headers: they are only tied by the block
+        // numbers and the total difficulties so far.
+        if let Some(parent) = headers.last() {
+            return_if_failed!(check_continuous_headers(&[
+                parent.clone(),
+                last_header.header().clone()
+            ]));
+        }
 
         // Check total difficulties for the continuous headers: the total difficulty of the last
         // header is what the client is going to trust, it has to be accumulated from the headers
